@@ -7,6 +7,8 @@ import AscaVerif.Props.C18
 import AscaVerif.Model.Ast
 import AscaVerif.Model.Mods
 import AscaVerif.Props.C04
+import AscaVerif.Model.Syll
+import AscaVerif.Props.C05
 import AscaVerif.Model.Run
 import AscaVerif.Lemmas.Run
 import AscaVerif.Props.C10
